@@ -73,7 +73,7 @@ where
     let mut addr_of: HashMap<u64, u64> = HashMap::new();
     let mut conts: Vec<Cont<V, S>> = Vec::new();
     for c in 0..nc {
-        let v = if rng.below(16) < p.none_p { V::none() } else { V::fresh((cfg.exec_no << 32) | (0xFF << 24) | c as u64 + 1) };
+        let v = if rng.below(16) < p.none_p { V::none() } else { V::fresh(crate::wl_core::id_block() + 1) };
         init_ids.push(v.vid());
         addr_of.insert(v.vid(), v.addr() as u64);
         conts.push(Arc::new(ArcSwapAny::<V, S>::new(v)));
@@ -86,6 +86,7 @@ where
         results: Mutex::new(Vec::new()),
         fin: Mutex::new(Vec::new()),
         q1_done: AtomicBool::new(false),
+        stop: AtomicBool::new(false),
         profile: p.clone(),
         exec_no: cfg.exec_no,
         step_budget: cfg.step_budget,
@@ -121,9 +122,11 @@ where
             guards: Vec::new(),
             owned: Vec::new(),
             seen_addrs: Vec::new(),
-            next_id: (seed & 0xFFFF) << 8,
+            next_id: crate::wl_core::id_block(),
             res: RefCell::new(WorkerResult { t, ..Default::default() }),
             last_path: std::cell::Cell::new(0),
+            budgets: std::cell::Cell::new((sh.step_budget, sh.step_budget)),
+            last_steps: std::cell::Cell::new(0),
         }
     };
 
@@ -265,7 +268,6 @@ fn child_body<V: Val, S: StratExt<V>>(
     if w.rng.chance(1, 3) {
         let mk2_seed = w.rng.next();
         let mut tw = mk(tid, mk2_seed);
-        tw.next_id |= 0x40_0000;
         let sh2 = sh.clone();
         let lsh2 = lsh.clone();
         set_exit_tail(Box::new(move || {
